@@ -276,6 +276,21 @@ def link(draw, blocks, label_pool, allow_replace=True, allow_atype_sel=True, pre
     if not inter:
         keys = [atom_key(0), atom_key(1)]
         inter.append(draw(interaction("bonds", keys)))
+    if orders[0] == 0 and draw(st.integers(0, 4)) == 0:
+        # a term that re-defines an interaction of the first residue's own block (same section, same atoms in
+        # the same order): wherever the link applies it replaces the block's parameters. It is put at a
+        # random place among the link's terms.
+        blk0 = by_name[res_of_order[0]]
+        cands = [it for it in blk0["inter"] if it["sec"] in ("bonds", "angles", "constraints") and not it["meta"]]
+        if cands:
+            src = draw(st.sampled_from(cands))
+            keys = [blk0["atoms"][a]["name"] for a in src["atoms"]]
+            if (src["sec"], tuple(keys)) not in used and (src["sec"], tuple(keys[::-1])) not in used:
+                for key in keys:
+                    if key not in atoms:
+                        atoms[key] = {"resname": res_of_order[0]} if distinct else {}
+                used.add((src["sec"], tuple(keys)))
+                inter.insert(draw(st.integers(0, len(inter))), draw(interaction(src["sec"], keys, guard_ok=False)))
     keys_all = list(atoms)
     edges, non_edges, patterns = [], [], []
     if draw(st.integers(0, 5)) == 0:
